@@ -41,7 +41,10 @@ class AbstractDenseTimeOnlineInterpreter(AbstractOnlineInterpreter, DenseTimeInt
         if self.ast.out_var_field:
             setattr(out, self.ast.out_var_field, rob)
 
+        # the samples of this call are consumed; an output object with fields stays what it is
         self.ast.var_object_dict = self.ast.var_object_dict.fromkeys(self.ast.var_object_dict, [])  #TODO I did not understand it.
+        if self.ast.out_var_field:
+            self.ast.var_object_dict[self.ast.out_var] = out
 
         return rob
 
